@@ -53,7 +53,9 @@ def run_shard(campaign, shard, nshards, seed, tier):
                     pr.deliver(src, rng.randint(1, 3))
                 pr.proc(0); pr.proc(1)
                 skipped += 1
-                if rng.random() < 0.6 or skipped > 2:      # the listener is never left unprocessed beyond its own deadline
+                # the listener is never left unprocessed beyond its own deadline: with a long separation time every step already
+                # costs an eighth of N_Cr and the sender may legitimately use most of it, so the listener keeps up with the receiver
+                if rng.random() < 0.6 or skipped > 2 or st > 20 * 10**6:
                     drain(pr)
                     skipped = 0
                 if st:
